@@ -69,9 +69,23 @@ THEOREMS += ["PV.C09.lex_shift", "PV.C09.lex_shift_of_fit", "PV.C09.lexRaw_shift
 THEOREMS += ["PV.C09.lex_parse_shift_model", "PV.C09.parseRTest_shift", "PV.C09.parseRTop_shift", "PV.C09.parseR_shift",
              "PV.C09.parseRExpression_shift", "PV.C09.lex_parseR_shift_model", "PV.C09.erase_shE", "PV.C09.range_shE",
              "PV.C09.shiftAt", "PV.C09.lexSpansGo_length", "PV.C09.toTree_shE"]
+# … and for WHOLE PROGRAMS: the ranged program parser PV.C02.parseRProgram (47 functions: all statements, patterns,
+# parameters, with-items, type parameters, decorators, the Mod* node) commutes with a shift of the span table
+# (lean/PV/C09/RProgShift{Base,1,2,3,4,}.lean, RProgShiftTree.lean; section 5 of Thm.lean)
+THEOREMS += ["PV.C09.parseRProgram_shift", "PV.C09.parseRProgramFuel_shift", "PV.C09.parseRTopT_shift",
+             "PV.C09.parseRProgram_shift_all", "PV.C09.parseRProgram_shift_tokenless", "PV.C09.parseRProgram_shift_fails",
+             "PV.C09.patShAt", "PV.C09.compShAt", "PV.C09.erase_shS", "PV.C09.erase_shiftRMod", "PV.C09.range_shiftRMod",
+             "PV.C09.toTree_shS", "PV.C09.toTree_shiftRMod", "PV.C09.lex_parseRProgram_shift_model",
+             "PV.C09.lex_parseRProgram_tokenless_model", "PV.C09.parseRProgText_erase", "PV.C09.interactive_module_agreeR",
+             "PV.C09.interactive_module_agreeR'"]
 
 TRUSTED = [
     "Lean 4.33.0 kernel; axioms limited to propext, Classical.choice, Quot.sound",
+    "for the end-to-end theorems of sections 4-5 (lex_parse_shift_model, lex_parseR_shift_model, lex_parseRProgram_shift_model): "
+    "that the real lexer / parser compute what the models PV.Lexer.lex, PV.Prog.parseProgram, PV.C02.parseR / parseRProgram "
+    "compute is NOT re-checked here — it is C05's lexer correspondence, the PROG correspondence (C01's prog-* streams) and C02's "
+    "ranged-model-* / ranged-program-model-* correspondence; the token conversion between the two models' alphabets is a "
+    "position-blind parameter of the theorems",
     "the LALRPOP automaton (parser/src/python.rs) and the lexer are PARAMETERS of the model (Env.parseTop, Env.lexTop): "
     "the theorems hold for every parser/lexer; that the real ones are translation-equivariant (hypothesis ShiftEnv) and "
     "that expression/interactive mode build the module-mode subtree is checked by the differential streams only",
@@ -105,19 +119,31 @@ PARTIAL = [
     "lexer-level translation is PV.C09.lex_shift (lean/PV/C09/LexShift.lean, on the lexer MODEL of PV/Lexer, whose tie to lexer.rs "
     "is the C05 correspondence): lex k src = shift k (lex 0 src) provided the end offset fits u32; in the entry-point model it "
     "is the hypothesis ShiftEnv.lex, and the real lexer is checked against the shift relation directly by the `lexes` "
-    "streams. COMPOSED at model level (section 4 of Thm.lean): lex_parse_shift_model — PV.Pipeline.parseText (lexer model, "
-    "filter, any position-blind token conversion, reference parser PV.Prog.parseProgram) at start offset k answers what it "
-    "answers at 0 (EQUAL range-erased tree, same rejection, lexical error offset moved by k), given that the end offset fits "
-    "u32; parseR_shift / parseRExpression_shift — the RANGED expression parser PV.C02.parseR (48 functions incl. the f-string "
-    "sub-parser with its per-field span table) on tokens whose spans are moved by k returns the tree with EVERY range moved "
-    "by k and nothing else changed (erase_shE), same rest, same rejections; lex_parseR_shift_model — the ranged tree of an "
-    "expression lexed at offset k is the ranged tree at 0 shifted by k. Remaining at model level: ranged STATEMENTS (the same "
-    "lemma shape extends to PV.C02's ranged program parser once its functions are walked the same way), the Mod node range / "
-    "marker of the entry-point model (entry_shift_*), and error offsets of a rejecting parser (PV.Prog and PV.C02.parseR are "
-    "recognisers: a rejection carries no position)",
-    "that the real LALRPOP parser is translation-equivariant (ShiftEnv.parse), the f-string sub-parser's absolute offsets "
-    "(string.rs parse_fstring_expr), and the cross-mode facts (expression-mode tree = value of the module's expression "
-    "statement, interactive body = module body) are differential checks on the real code, not theorems",
+    "streams. COMPOSED at model level (sections 4 and 5 of Thm.lean). Range-erased: lex_parse_shift_model — "
+    "PV.Pipeline.parseText (lexer model, filter, any position-blind token conversion, reference parser PV.Prog.parseProgram) "
+    "at start offset k answers what it answers at 0 (EQUAL range-erased tree, same rejection, lexical error offset moved by "
+    "k), given that the end offset fits u32. RANGED, THE FIRST SENTENCE OF THE PROPERTY FOR WHOLE PROGRAMS: "
+    "parseRProgram_shift — the ranged program parser PV.C02.parseRProgram (47 functions: all 28 statement kinds, patterns, "
+    "parameters, with-items, type parameters, decorators, the Mod* node, calling the ranged expression parser PV.C02.parseR — "
+    "48 more functions incl. the f-string sub-parser with its per-field span table, parseR_shift — at every expression "
+    "position) on tokens whose spans are all moved by k returns, in every mode, the tree with EVERY range moved by k and "
+    "nothing else changed (erase_shiftRMod; toTree_shiftRMod on the generic tree rangesOk reads), derived ends of compound "
+    "statements included (they are ranges of a child), same rejections; lex_parseRProgram_shift_model — parseRProgText "
+    "(lexer model -> filter -> conversion -> parseRProgram) at start offset k = the answer at 0 with every range and the "
+    "lexical error offset moved by k, under the u32 fit, for every text with at least one non-trivia token. The tie of "
+    "parseRProgram to the real parser is C02's ranged-program-model-* correspondence, of the lexer model C05's. What is "
+    "NOT translated is proved too: the token-less text (parseRProgram_shift_fails, lex_parseRProgram_tokenless_model: Mod* "
+    "ranged 0..0 at every offset — the listed finding start-marker-mod-range-no-token, reproduced by the model). Remaining "
+    "at model level: error offsets of a rejecting parser (PV.Prog, PV.C02.parseR and parseRProgram are recognisers: a "
+    "rejection carries no position; the entry-point model's not_before / marker theorems entry_shift_* cover the offsets "
+    "for an arbitrary parser)",
+    "that the real LALRPOP parser is translation-equivariant (ShiftEnv.parse) and the f-string sub-parser's absolute offsets "
+    "(string.rs parse_fstring_expr) are theorems about the MODELS PV.C02.parseRProgram / parseR only (tied by C02's "
+    "correspondence streams) and differential checks on the real code here. Cross-mode facts: interactive body = module "
+    "body is a theorem of the ranged model too (interactive_module_agreeR: same body, same ranges, same Mod range); "
+    "expression-mode tree = value of the module's expression statement is proved range-erased only "
+    "(PV.Prog.parse_expr_stmt_agree, on one-expression lines) — the two modes reach the expression list with different fuel "
+    "and fuel-monotonicity of the RANGED parser is not proved — and checked on the real code by the oracle",
     "mode_names is a table check over the candidate names of this module, re-extracted from the real Mode::from_str on every "
     "run; the set of all strings is not finite",
 ]
@@ -131,13 +157,21 @@ LEVEL_TEXT = ("Machine-checked Lean 4 theorems, for every parser and lexer plugg
               "parse_tokens of the lexer's stream up to the not_before clamp; and every parse_starts_at commutes with translation by "
               "a start offset for every text — with no assumption on the start marker when the text has a token, and under an "
               "explicit marker hypothesis for token-less texts, whose failure with all-nodes-with-ranges (Mod range 0..0) is proved "
-              "as a counterexample and listed as the one remaining known finding. The model is tied to the code by running all ~520 "
+              "as a counterexample and listed as the one remaining known finding. The first sentence of the property is in addition a "
+              "theorem END TO END ON THE MODELS for whole programs (lex_parseRProgram_shift_model): lexer model + trivia filter + "
+              "the ranged program parser PV.C02.parseRProgram (every statement, pattern, parameter, expression incl. f-string "
+              "fields, and the Mod node) at start offset k give the tree of offset 0 with every range moved by k and nothing else "
+              "changed, a lexical error moved by k, for every text with a token whose end offset fits u32; the token-less exception "
+              "is proved of the model as well. The models are tied to the code by C02's ranged-program-model-* and C05's lexer "
+              "correspondence. The entry-point model is tied to the code by running all ~520 "
               "entry-point calls per text and offset through both, and the real code is judged directly by an independent Python "
               "oracle (shift relation, cross-mode and projection relations) in the default, all-nodes-with-ranges and full-lexer "
               "builds.")
-LEVEL_NOTE = ("Trusted: Lean kernel, the translator and {:?} readers, the harness. Not proved: translation-equivariance of the "
-              "real lexer (PV.C09.lex_shift proves it of the lexer model) and of the LALRPOP parser, f-string offset threading, cross-mode grammar "
-              "facts — these are differential streams judged by the oracle.")
+LEVEL_NOTE = ("Trusted: Lean kernel, the translator and {:?} readers, the harness. Translation-equivariance is proved of the "
+              "lexer MODEL (PV.C09.lex_shift) and of the ranged parser MODELS (PV.C09.parseRProgram_shift, parseR_shift, f-string "
+              "offset threading included); that the real lexer and LALRPOP parser behave like these models is C05's / C02's "
+              "correspondence, and here the real code is judged against the shift relation directly by the oracle. Not proved: "
+              "expression mode = the module's expression statement WITH ranges (range-erased: PV.Prog.parse_expr_stmt_agree).")
 RULE = ("one request = one text x one start offset, answered with every public entry point at offset 0 and at offset k "
         "(about 520 calls); distinct = distinct request line; non-trivial = non-empty text")
 
